@@ -528,17 +528,37 @@ func fuzzStage(st *shardState, build string, flags []string, d time.Duration) {
 	defer st.mu.Unlock()
 	st.counts["fuzz_execs_"+build] += execs
 	st.evals += int(execs)
-	if err != nil || strings.Contains(text, "FAIL") {
-		msg := tail(text, 3000)
-		// keep the failing input next to the replays
-		if i := strings.Index(text, "Failing input written to "); i >= 0 {
-			f := strings.Fields(text[i+len("Failing input written to "):])[0]
-			if b, rerr := os.ReadFile(filepath.Join(root, "fuzzc05", f)); rerr == nil {
-				msg += "\n--- failing input file ---\n" + string(b)
-				os.RemoveAll(filepath.Join(root, "fuzzc05", "testdata"))
+	if err == nil && !strings.Contains(text, "FAIL") {
+		return
+	}
+	// the fuzzer reported a failure: it only counts when the saved input reproduces it in a
+	// fresh process (a worker that dies or hangs on a loaded machine leaves no reproducer)
+	msg := tail(text, 3000)
+	var file string
+	if i := strings.Index(text, "Failing input written to "); i >= 0 {
+		file = strings.Fields(text[i+len("Failing input written to "):])[0]
+	}
+	reproduced := false
+	if file != "" {
+		if b, rerr := os.ReadFile(filepath.Join(root, "fuzzc05", file)); rerr == nil {
+			msg += "\n--- failing input file ---\n" + string(b)
+			rargs := append([]string{"test", "-tags", "verif"}, flags...)
+			rargs = append(rargs, "-run", "FuzzDecode/"+filepath.Base(file), ".")
+			rc := exec.Command("go", rargs...)
+			rc.Dir = filepath.Join(root, "fuzzc05")
+			rc.Env = goEnv()
+			rout, rerr2 := rc.CombinedOutput()
+			if rerr2 != nil {
+				reproduced = true
+				msg += "\n--- re-run of the saved input ---\n" + tail(string(rout), 3000)
 			}
 		}
-		st.viols = append(st.viols, violation{Build: "fuzz-" + build, Idx: -1, Oracle: "fuzz", Sig: "C05/fuzz/" + classifyFatal(text), Msg: msg})
+		os.RemoveAll(filepath.Join(root, "fuzzc05", "testdata"))
+	}
+	if reproduced {
+		st.viols = append(st.viols, violation{Build: "fuzz-" + build, Idx: -1, Oracle: "fuzz", Sig: "C05/fuzz/" + classifyFatal(msg), Msg: msg})
+	} else {
+		st.inconcl = append(st.inconcl, "fuzz stage ("+build+") stopped with a failure that the saved input does not reproduce in a fresh process (worker died or hung): "+tail(strings.ReplaceAll(text, "\n", " | "), 400))
 	}
 }
 
